@@ -324,6 +324,32 @@ func c09GenTmpl(t *rapid.T, o c09TmplOpt) c09Tmpl {
 			w.l(3, ")")
 			w.l(2, ")")
 		}
+		if rapid.Bool().Draw(t, "nestedview2") {
+			// a second view that needs a made-up type for an anonymous transform: the made-up names are
+			// numbered per view, so the model must not depend on the order in which views are visited
+			cl("tmpl_views_anontype_in_two_views")
+			w.l(1, "!view Conv2(o <: Order) -> Order:")
+			w.l(2, "o -> <Order>(:")
+			w.l(3, "let other = o.items -> <set of>(:")
+			w.l(4, "thing = -> <Order>(:")
+			w.l(5, "id = 2")
+			w.l(4, ")")
+			w.l(4, "more = -> <Item>(:")
+			w.l(5, "id = 3")
+			w.l(4, ")")
+			w.l(3, ")")
+			w.l(3, "id = o.id")
+			w.l(2, ")")
+			w.l(1, "!view Conv3(o <: Order) -> Order:")
+			w.l(2, "o -> <Order>(:")
+			w.l(3, "let third = o.items -> <set of>(:")
+			w.l(4, "one = -> <Item>(:")
+			w.l(5, "id = 4")
+			w.l(4, ")")
+			w.l(3, ")")
+			w.l(3, "id = o.id")
+			w.l(2, ")")
+		}
 		if rapid.Bool().Draw(t, "abstractview") {
 			w.l(1, "!view Abs(n <: int) -> int [~abstract]")
 		}
